@@ -59,6 +59,19 @@ func (p pd) bytes(x any) []byte {
 	return b
 }
 
+// itemCount: log records, spans, metric data points or profile samples in the payload.
+func (p pd) itemCount(x any) int {
+	switch p.sig {
+	case sigLogs:
+		return x.(plog.Logs).LogRecordCount()
+	case sigTraces:
+		return x.(ptrace.Traces).SpanCount()
+	case sigProfiles:
+		return x.(pprofile.Profiles).SampleCount()
+	}
+	return x.(pmetric.Metrics).DataPointCount()
+}
+
 // json renders a wire-form payload for messages.
 func (p pd) json(b []byte) string {
 	if len(b) == 0 {
